@@ -81,11 +81,15 @@ def trigUntyped (_op : Op) (a b : Atom) : Bool :=
   | .uri _, .ua t => decide (strip t ≠ t)
   | _, _ => false
 
-/-! ### calendar consistency of date/time payloads (an input well-formedness condition, not a finding) -/
+/-! ### date/time payloads: validity of the timezone, calendar consistency (not findings) -/
 
-/-- the redundant `year` field agrees with the timeline: two values whose local years differ by more
-than two are ordered by their instants as by their years (true of every real date/time: a year has
-at least 365 days, a timezone offset at most 14 hours).  The harness only generates such values. -/
+/-- the explicit timezone of a date/time atom, if any, lies within ±14:00 (true of every value the
+library can construct); vacuous for the other atoms -/
+def atomTzOK (a : Atom) : Bool := a.dt.tzOK
+
+/-- two values whose local years differ by more than two are ordered by their instants as by their
+years.  *Proved* from `atomTzOK` in EPV/Lemmas/CompareValue.lean (`dtFarOK_of_tzOK`): a year has at
+least 365 days, a timezone offset at most 14 hours. -/
 def dtFarOK (x y : DT) : Bool :=
   (!decide (x.year + 2 < y.year) || decide (x.inst < y.inst)) &&
   (!decide (y.year + 2 < x.year) || decide (y.inst < x.inst))
